@@ -1,0 +1,87 @@
+//! Verification hooks, compiled only with `--cfg agdb_verif`.
+//!
+//! `task_gate(index)` is awaited as the first statement of every task that
+//! `ClusterStorage::execute_log` spawns. With no gate installed (the default)
+//! it returns at once. A harness installs a gate to decide in which order the
+//! spawned execution tasks are allowed to proceed: every task then registers
+//! its log index, parks, and continues when the harness releases that index.
+
+use std::collections::HashMap;
+use std::sync::Mutex;
+use std::sync::OnceLock;
+use tokio::sync::oneshot;
+
+#[derive(Default)]
+struct Gate {
+    enabled: bool,
+    parked: HashMap<u64, Vec<oneshot::Sender<()>>>,
+    arrived: Vec<u64>,
+    passed: Vec<u64>,
+}
+
+fn gate() -> &'static Mutex<Gate> {
+    static GATE: OnceLock<Mutex<Gate>> = OnceLock::new();
+    GATE.get_or_init(|| Mutex::new(Gate::default()))
+}
+
+/// Called by the server at the start of each spawned execution task.
+pub(crate) async fn task_gate(index: u64) {
+    let receiver = {
+        let mut g = gate().lock().expect("verif gate");
+        if !g.enabled {
+            return;
+        }
+        let (sender, receiver) = oneshot::channel();
+        g.arrived.push(index);
+        g.parked.entry(index).or_default().push(sender);
+        receiver
+    };
+    if receiver.await.is_err() {
+        // abandoned by the harness: this task models one that died with its process
+        std::future::pending::<()>().await;
+    }
+    gate().lock().expect("verif gate").passed.push(index);
+}
+
+/// Turn the gate on (tasks park) or off (tasks run freely); clears all records.
+#[allow(dead_code)]
+pub(crate) fn gate_enable(enabled: bool) {
+    let mut g = gate().lock().expect("verif gate");
+    g.enabled = enabled;
+    g.parked.clear();
+    g.arrived.clear();
+    g.passed.clear();
+}
+
+/// Forget all parked tasks; they never proceed (models a process crash).
+#[allow(dead_code)]
+pub(crate) fn gate_abandon() {
+    gate().lock().expect("verif gate").parked.clear();
+}
+
+/// Log indexes of the tasks that reached the gate so far, in arrival order.
+#[allow(dead_code)]
+pub(crate) fn gate_arrived() -> Vec<u64> {
+    gate().lock().expect("verif gate").arrived.clone()
+}
+
+/// Log indexes of the tasks that were released and went on, in that order.
+#[allow(dead_code)]
+pub(crate) fn gate_passed() -> Vec<u64> {
+    gate().lock().expect("verif gate").passed.clone()
+}
+
+/// Release one parked task with this log index; false if none is parked.
+#[allow(dead_code)]
+pub(crate) fn gate_release(index: u64) -> bool {
+    let mut g = gate().lock().expect("verif gate");
+    let Some(list) = g.parked.get_mut(&index) else {
+        return false;
+    };
+    if list.is_empty() {
+        return false;
+    }
+    let sender = list.remove(0);
+    drop(g);
+    sender.send(()).is_ok()
+}
